@@ -509,3 +509,27 @@ Example ex_checker_rejects_double_count :
   case_ok (CHist false 2 [[[(1%nat, 21)]; [(1%nat, 21)]]] [(1%nat, 21)] [0; 42]) = false /\
   case_ok (CHist false 2 [[[(1%nat, 21)]; [(1%nat, 21)]]] [(1%nat, 21)] [0; 21]) = true.
 Proof. split; vm_compute; reflexivity. Qed.
+
+(* ================= resubmission to the worker that still holds the task ================= *)
+(* the model the correspondence uses, with the switches goparams reads from worker.Run *)
+Theorem resub_total reg tasks :
+  worker_run_reply_filled_on_every_path = true ->
+  (forall ln, In ln tasks -> counters_ok reg (fst ln)) ->
+  exists w, resub_model reg tasks = (w, Ok tt) /\
+  forall m, (m < reg)%nat -> peek w 0 m = wrap (sum_incs m (concat (map fst tasks))).
+Proof.
+  intros F Ck. unfold resub_model. rewrite F.
+  destruct (result_total_after_resubmission_to_same_worker worker_run_resets_scope reg tasks Ck)
+    as (w & E & _ & P). eauto.
+Qed.
+
+Example ex_resubmission :
+  let tasks := [([(1%nat, 21)], 2%nat); ([(1%nat, 4)], 0%nat)] in
+  (let '(w, r) := run_bigmachine_resub true true 2 tasks in (r, peek w 0 1)) = (Ok tt, 25) /\
+  (let '(w, r) := run_bigmachine_resub true false 2 tasks in (r, peek w 0 1)) = (Ok tt, 4).
+Proof. split; vm_compute; reflexivity. Qed.
+
+Example ex_checker_rejects_wiped_task :
+  case_ok (CResub 2 [([(1%nat, 21)], 1%nat)] [(1%nat, 21)] [0; 0]) = false /\
+  case_ok (CResub 2 [([(1%nat, 21)], 1%nat)] [(1%nat, 21)] [0; 21]) = true.
+Proof. split; vm_compute; reflexivity. Qed.
